@@ -235,6 +235,92 @@ fn achievable(attrs: &DifficultyAttributes, i: &In, misses: u32, out: &ScoreStat
     v
 }
 
+/// Sums of `s` hit-result weights from {1, 2, 4, 6} (n50, n100, n200, n300 in units of 10): every integer in [s, 6s] except
+/// 6s-1 and 6s-3 (an odd sum needs a 1, and the remaining s-1 items reach at most 6s-6).
+fn mania_sum_achievable(s: u32, v: i64) -> bool {
+    let s = i64::from(s);
+    if s == 0 {
+        return v == 0;
+    }
+    v >= s && v <= 6 * s && v != 6 * s - 1 && v != 6 * s - 3
+}
+
+/// Exact smallest |accuracy - target| over ALL hit-result distributions of a mania shape with `total` judgements of which
+/// `misses` are misses - for shapes far too large to enumerate. The numerator of the crate's accuracy formula is
+/// pw*n320 + 10*(6*n300 + 4*n200 + 2*n100 + n50) with pw = 61 (lazer) or 60 (classic): for every n320 the closest reachable
+/// value of the second term is found directly. Checked against full enumeration on small shapes once per process.
+fn mania_best_distance(total: u32, misses: u32, classic: bool, target: f64) -> f64 {
+    let t = total.saturating_sub(misses);
+    if total == 0 {
+        return (0.0f64 - target).abs();
+    }
+    let pw: u32 = if classic { 60 } else { 61 };
+    let den = f64::from(pw * total);
+    let want = target * den;
+    let mut best = f64::INFINITY;
+    for a in 0..=t {
+        let s = t - a;
+        let x = (want - f64::from(pw * a)) / 10.0;
+        let base = x.floor() as i64;
+        let mut cands: Vec<i64> = (-4..=5).map(|d| base + d).collect();
+        let s64 = i64::from(s);
+        cands.extend([s64, 6 * s64, 6 * s64 - 2, 6 * s64 - 4, 0]);
+        for v in cands {
+            if !mania_sum_achievable(s, v) {
+                continue;
+            }
+            let num = pw * a + 10 * (v as u32);
+            let acc = f64::from(num) / f64::from(pw * total);
+            let d = (acc - target).abs();
+            if d < best {
+                best = d;
+            }
+        }
+        if classic {
+            // n320 and n300 weigh the same: one pass covers every split
+            break;
+        }
+    }
+    best
+}
+
+fn mania_oracle_self_check() {
+    static DONE: std::sync::OnceLock<()> = std::sync::OnceLock::new();
+    DONE.get_or_init(|| {
+        for n in 0..=9u32 {
+            for misses in 0..=n.min(2) {
+                for classic in [false, true] {
+                    let attrs = mania_shape(n, 0);
+                    let i = In {
+                        acc: Some(0.0),
+                        combo: None,
+                        misses: Some(misses),
+                        r: vec![None; 5],
+                        worst: false,
+                        lazer: Some(!classic),
+                        cl: false,
+                        cl_setting: None,
+                        lazer_via_setter: false,
+                        cl_repr: 0,
+                        ticks: [None; 3],
+                        passed: None,
+                    };
+                    let all = achievable(&attrs, &i, misses, &ScoreState::default());
+                    for k in 0..=40 {
+                        let target = f64::from(k) / 40.0 + 0.003;
+                        let brute = all.iter().map(|a| (a - target).abs()).fold(f64::INFINITY, f64::min);
+                        let closed = mania_best_distance(n, misses, classic, target);
+                        assert!(
+                            (brute - closed).abs() <= 1e-15 || n == misses,
+                            "harness bug: closed-form mania oracle {closed:e} vs enumeration {brute:e} (n={n} misses={misses} classic={classic} target={target})"
+                        );
+                    }
+                }
+            }
+        }
+    });
+}
+
 fn out_accuracy(attrs: &DifficultyAttributes, i: &In, out: &ScoreState) -> f64 {
     match attrs {
         DifficultyAttributes::Osu(a) => {
@@ -367,8 +453,14 @@ fn check_one_with<'m>(
     }
     let target = i.acc.unwrap().clamp(0.0, 100.0) / 100.0;
     let got = out_accuracy(attrs, i, &out);
-    let all = achievable(attrs, i, want_m, &out);
-    let min_dist = all.iter().map(|a| (a - target).abs()).fold(f64::INFINITY, f64::min);
+    let min_dist = match attrs {
+        DifficultyAttributes::Mania(a) if expected_sum > 60 => {
+            let _ = a;
+            mania_oracle_self_check();
+            mania_best_distance(expected_sum, want_m, c12::classic(mode, i), target)
+        }
+        _ => achievable(attrs, i, want_m, &out).iter().map(|a| (a - target).abs()).fold(f64::INFINITY, f64::min),
+    };
     let dist = (got - target).abs();
     if dist > min_dist + 1e-12 {
         let prio = if i.worst { "worst" } else { "best" };
@@ -480,7 +572,47 @@ pub fn case(ctx: &mut Ctx, idx: u64) {
     ctx.sample(|| format!("mode={mname} exhaustive={exhaustive} attrs={} configurations={n_cfg}", dump(&attrs)));
     if !exhaustive {
         via_map(ctx, &mut rng);
+        if rng.below(8) == 0 {
+            large_mania(ctx, &mut rng);
+        }
     }
+}
+
+/// A mania shape with a thousand or more judgements, where neighbouring achievable accuracies are closer than 1e-5 to each other:
+/// "close enough" and "closest" are different things only here. Judged against the closed-form oracle.
+fn large_mania(ctx: &mut Ctx, rng: &mut Rng) {
+    let n = 700 + rng.below(900) as u32;
+    let h = rng.below(400) as u32;
+    let attrs = mania_shape(n, h.min(n));
+    ctx.count("class:large-mania-shape");
+    let mut n_cfg = 0u64;
+    for (lazer, cl) in [(Some(true), false), (Some(false), false), (Some(true), true)] {
+        for worst in [false, true] {
+            for misses in [None, Some(rng.below(6) as u32)] {
+                for _ in 0..2 {
+                    let i = In {
+                        acc: Some(rng.frange(55.0, 100.0)),
+                        combo: None,
+                        misses,
+                        r: vec![None; 5],
+                        worst,
+                        lazer,
+                        cl,
+                        cl_setting: None,
+                        lazer_via_setter: n_cfg % 2 == 1,
+                        cl_repr: (n_cfg % 3) as u8,
+                        ticks: [None; 3],
+                        passed: None,
+                    };
+                    n_cfg += 1;
+                    if !check_one(ctx, GameMode::Mania, &attrs, &i, "large") {
+                        break;
+                    }
+                }
+            }
+        }
+    }
+    ctx.count_n("configurations", n_cfg);
 }
 
 /// The same oracle for a play that is specified on a builder created from an osu!standard *map* and only afterwards
